@@ -132,6 +132,19 @@ func concRound(seed int64, round int, base string) (res concResult) {
 	var mu sync.Mutex
 	var problems []string
 	problem := func(s string) { mu.Lock(); problems = append(problems, s); mu.Unlock() }
+	// panics of the fan-out (see panics.go): they are violations; the round's completeness check is then void
+	var notifyPanics []concViol
+	dead := make([]bool, nStable)
+	notifyPanic := func(who, stack string) bool {
+		sig, in := notifySig(stack)
+		if !in {
+			return false
+		}
+		mu.Lock()
+		notifyPanics = append(notifyPanics, concViol{sig, notifyPanicWhat, map[string]interface{}{"where": who, "stack": trunc(stack, 2500)}})
+		mu.Unlock()
+		return true
+	}
 	start := make(chan struct{})
 	var writers sync.WaitGroup
 	var readers sync.WaitGroup
@@ -149,12 +162,26 @@ func concRound(seed int64, round int, base string) (res concResult) {
 				for _, ch := range plan[i] {
 					x := f.chars[ch.x]
 					m, err := c.Do("PUT", "/characteristics", refctl.ContentJSON, refctl.PutBody(refctl.CharValue{AID: x.AID, IID: x.IID, Value: refctl.RawJSON(ch.val)}))
+					if err != nil {
+						if p := httpPanicFor(c.LocalAddr()); p != nil && notifyPanic(fmt.Sprintf("PUT handler of remote writer %d (its connection was dropped: %v)", i, err), p.Text+"\n"+p.Stack) {
+							mu.Lock()
+							dead[i] = true
+							mu.Unlock()
+							break
+						}
+					}
 					if err != nil || m.Status != 204 {
 						problem(fmt.Sprintf("remote writer %d: PUT failed: %v", i, err))
 						break
 					}
 				}
 				writers.Done()
+			}
+			mu.Lock()
+			d := dead[i]
+			mu.Unlock()
+			if d {
+				return
 			}
 			// read until the response of the final fence (sent by the coordinator)
 			m, err := c.ReadResponse()
@@ -171,8 +198,10 @@ func concRound(seed int64, round int, base string) (res concResult) {
 			for _, ch := range plan[w] {
 				x := f.chars[ch.x]
 				if p, txt := vf.Recover(func() { x.set(ch.val) }); p {
-					problem("SetValue panicked: " + trunc(txt, 800))
-					return
+					if !notifyPanic(fmt.Sprintf("SetValue of application goroutine %d", w), txt) {
+						problem("SetValue panicked: " + trunc(txt, 800))
+						return
+					}
 				}
 			}
 		}(w)
@@ -186,7 +215,8 @@ func concRound(seed int64, round int, base string) (res concResult) {
 		none   bool // subscribed to nothing that changes: must receive nothing
 	}
 	var transients []transient
-	churn.Add(2)
+	const churners = 3
+	churn.Add(1 + churners)
 	go func() {
 		defer churn.Done()
 		c, err := f.a.Verified(ids[nStable], nil, "")
@@ -217,48 +247,50 @@ func concRound(seed int64, round int, base string) (res concResult) {
 		}
 	}()
 	// churn 2: short-lived connections that subscribe to everything and close (FIN / RST) while changes are fanned out
-	go func() {
-		defer churn.Done()
-		crnd := rand.New(rand.NewSource(seed ^ int64(round)*31))
-		<-start
-		n := 0
-		for {
-			select {
-			case <-stop:
-				mu.Lock()
-				res.Counters["churn_connections"] += n
-				mu.Unlock()
-				return
-			default:
-			}
-			c, err := f.a.Verified(ids[nStable+1], nil, "")
-			if err != nil {
-				problem("churn pair-verify: " + err.Error())
-				return
-			}
-			c.Timeout = 120 * time.Second
-			if _, err := c.Do("PUT", "/characteristics", refctl.ContentJSON, refctl.PutBody(subAll...)); err != nil {
-				problem("churn subscribe: " + err.Error())
-				c.Close()
-				return
-			}
-			for k := crnd.Intn(3); k > 0; k-- {
-				if _, err := c.Do("GET", fenceTarget, "", nil); err != nil {
-					problem("churn fence: " + err.Error())
-					break
+	for cw := 0; cw < churners; cw++ {
+		go func(cw int) {
+			defer churn.Done()
+			crnd := rand.New(rand.NewSource(seed ^ int64(round)*31 + int64(cw)))
+			<-start
+			n := 0
+			for {
+				select {
+				case <-stop:
+					mu.Lock()
+					res.Counters["churn_connections"] += n
+					mu.Unlock()
+					return
+				default:
 				}
+				c, err := f.a.Verified(ids[nStable+1], nil, "")
+				if err != nil {
+					problem("churn pair-verify: " + err.Error())
+					return
+				}
+				c.Timeout = 120 * time.Second
+				if _, err := c.Do("PUT", "/characteristics", refctl.ContentJSON, refctl.PutBody(subAll...)); err != nil {
+					problem("churn subscribe: " + err.Error())
+					c.Close()
+					return
+				}
+				for k := crnd.Intn(3); k > 0; k-- {
+					if _, err := c.Do("GET", fenceTarget, "", nil); err != nil {
+						problem("churn fence: " + err.Error())
+						break
+					}
+				}
+				mu.Lock()
+				transients = append(transients, transient{c.TakeEvents(), "short-lived connection", false})
+				mu.Unlock()
+				if crnd.Intn(2) == 0 {
+					c.CloseGraceful()
+				} else {
+					c.Close()
+				}
+				n++
 			}
-			mu.Lock()
-			transients = append(transients, transient{c.TakeEvents(), "short-lived connection", false})
-			mu.Unlock()
-			if crnd.Intn(2) == 0 {
-				c.CloseGraceful()
-			} else {
-				c.Close()
-			}
-			n++
-		}
-	}()
+		}(cw)
+	}
 	close(start)
 	done := make(chan struct{})
 	go func() { writers.Wait(); close(done) }()
@@ -272,6 +304,9 @@ func concRound(seed int64, round int, base string) (res concResult) {
 	churn.Wait()
 	// final fence on every stable connection (the reader goroutine of the connection reads the response)
 	for i, c := range stable {
+		if dead[i] {
+			continue
+		}
 		if err := c.Send(refctl.BuildRequest("GET", fenceTarget, "", nil)); err != nil {
 			problem(fmt.Sprintf("final fence on %d: %v", i, err))
 		}
@@ -332,7 +367,7 @@ func concRound(seed int64, round int, base string) (res concResult) {
 				}
 			}
 		}
-		if mustBeComplete {
+		if mustBeComplete && len(notifyPanics) == 0 {
 			missing := 0
 			var first string
 			for k, o := range by {
@@ -352,7 +387,15 @@ func concRound(seed int64, round int, base string) (res concResult) {
 			res.Counters["stable_connections_checked"]++
 		}
 	}
+	res.Viol = append(res.Viol, notifyPanics...)
+	if len(notifyPanics) > 0 {
+		res.Counters["rounds_with_a_panic_in_the_fan_out"] = 1
+		res.Counters["panics_in_the_fan_out"] = len(notifyPanics)
+	}
 	for i, c := range stable {
+		if dead[i] {
+			continue
+		}
 		self := -2
 		if i < nRemote {
 			self = i
